@@ -466,7 +466,14 @@ static void prop_c18_lists(const vf::Case& c, Ctx& ctx)
     auto et = lib.playlist_entity();
     std::string uuid = lib.information().get().uuid;
     std::map<int64_t, v2::playlist_row> lists;                 // id -> row as written
-    std::map<int64_t, std::vector<int64_t>> entries;           // list id -> track ids in insertion order
+    struct Ent
+    {
+        int64_t track;
+        std::string uuid;
+        int64_t mref;
+        int64_t eid;
+    };
+    std::map<int64_t, std::vector<Ent>> entries;               // list id -> entities in insertion order
     std::map<int64_t, std::vector<int64_t>> order;             // parent id (0 = root) -> children in sibling order
     auto unlink = [&](int64_t id) {
         auto& v = order[lists[id].parent_list_id];
@@ -625,16 +632,38 @@ static void prop_c18_lists(const vf::Case& c, Ctx& ctx)
             {
                 int64_t id = pick_full();
                 int64_t track = 1 + static_cast<int64_t>(s.below(6));
-                v2::playlist_entity_row er{v2::PLAYLIST_ENTITY_ROW_ID_NONE, id, track, uuid, 0, static_cast<int64_t>(s.below(3))};
-                bool already = std::find(entries[id].begin(), entries[id].end(), track) != entries[id].end();
-                hist += " | add_back(" + std::to_string(id) + "," + std::to_string(track) + ")";
+                // one entity in four belongs to another database (the table is keyed by (list, database uuid, track)): the same track id
+                // may then occur twice in a list, once per database
+                bool foreign = s.below(4) == 0;
+                std::string eu = foreign ? "foreign-uuid-" + std::to_string(s.below(2)) : uuid;
+                v2::playlist_entity_row er{v2::PLAYLIST_ENTITY_ROW_ID_NONE, id, track, eu, 0, static_cast<int64_t>(s.below(3))};
+                auto& ents = entries[id];
+                auto same = std::find_if(ents.begin(), ents.end(), [&](const Ent& x) { return x.track == track && x.uuid == eu; });
+                bool already = same != ents.end();
+                size_t same_track = std::count_if(ents.begin(), ents.end(), [&](const Ent& x) { return x.track == track; });
+                hist += " | add_back(" + std::to_string(id) + "," + std::to_string(track) + (foreign ? "," + eu : std::string()) + ")";
                 int64_t eid = et.add_back(er);
-                if (!already)
-                    entries[id].push_back(track);
-                auto got = et.get(id, track);
-                VF_CHECK(got && got->id == eid && got->list_id == id && got->track_id == track && got->database_uuid == uuid, hist << ": entity reads back differently");
-                if (!already)
-                    VF_CHECK(got->membership_reference == er.membership_reference, hist << ": membership reference reads back as " << got->membership_reference);
+                if (already)
+                    VF_CHECK(eid == same->eid, hist << ": add_back of an existing entity returns id " << eid << ", the entity has id " << same->eid);
+                else
+                {
+                    for (auto& kv : entries)
+                        for (auto& x : kv.second)
+                            VF_CHECK(x.eid != eid, hist << ": add_back of a new entity returns the id " << eid << " of another live entity");
+                    ents.push_back(Ent{track, eu, er.membership_reference, eid});
+                    ++same_track;
+                }
+                if (foreign)
+                    ctx.label("entity:foreign-uuid");
+                if (same_track >= 2)
+                    ctx.label("entity:same-track-two-databases");
+                if (same_track == 1)
+                {
+                    auto got = et.get(id, track);
+                    VF_CHECK(got && got->id == eid && got->list_id == id && got->track_id == track && got->database_uuid == eu, hist << ": entity reads back differently");
+                    if (!already)
+                        VF_CHECK(got->membership_reference == er.membership_reference, hist << ": membership reference reads back as " << got->membership_reference);
+                }
                 ctx.label("entity:add_back");
                 break;
             }
@@ -644,7 +673,10 @@ static void prop_c18_lists(const vf::Case& c, Ctx& ctx)
                 if (entries[id].empty())
                     break;
                 size_t i = s.below(entries[id].size());
-                int64_t track = entries[id][i];
+                int64_t track = entries[id][i].track;
+                // remove(list, track) names an entity by its track: only unambiguous tracks are removed
+                if (std::count_if(entries[id].begin(), entries[id].end(), [&](const Ent& x) { return x.track == track; }) != 1)
+                    break;
                 hist += " | remove_entity(" + std::to_string(id) + "," + std::to_string(track) + ")";
                 if (i + 1 != entries[id].size() && entries[id].size() >= 3)
                 {
@@ -758,7 +790,26 @@ static void prop_c18_lists(const vf::Case& c, Ctx& ctx)
             VF_CHECK(got.has_value(), hist << ": playlist " << kv.first << " is gone");
             VF_CHECK(r(*got) == r(kv.second), hist << ": playlist " << kv.first << " reads back as " << r(*got) << ", written " << r(kv.second));
             auto tids = et.track_ids(kv.first);
-            VF_CHECK(tids == entries[kv.first], hist << ": track_ids(" << kv.first << ") differ from insertion order minus removed");
+            std::vector<int64_t> want_tids;
+            for (auto& x : entries[kv.first])
+                want_tids.push_back(x.track);
+            VF_CHECK(tids == want_tids, hist << ": track_ids(" << kv.first << ") differ from insertion order minus removed");
+            // every entity row as written (the listing order of get_for_list is not documented: compared as a set)
+            auto rows_ = et.get_for_list(kv.first);
+            VF_CHECK(rows_.size() == entries[kv.first].size(), hist << ": get_for_list(" << kv.first << ") has " << rows_.size() << " rows, " << entries[kv.first].size() << " were written and not removed");
+            for (auto& x : entries[kv.first])
+            {
+                bool found = false;
+                for (auto& rw : rows_)
+                    if (rw.id == x.eid)
+                    {
+                        found = true;
+                        VF_CHECK(rw.list_id == kv.first && rw.track_id == x.track && rw.database_uuid == x.uuid && rw.membership_reference == x.mref,
+                                 hist << ": entity " << x.eid << " of list " << kv.first << " reads back as (track " << rw.track_id << ", uuid " << rw.database_uuid
+                                      << ", ref " << rw.membership_reference << "), written (track " << x.track << ", uuid " << x.uuid << ", ref " << x.mref << ")");
+                    }
+                VF_CHECK(found, hist << ": entity " << x.eid << " is missing from get_for_list(" << kv.first << ")");
+            }
         }
     }
     ctx.describe = hist;
